@@ -157,6 +157,11 @@ def run(prop, tier, seed):
                     raise MachineryError("generator produced a vector the library rejects: %s (C04 decides whether that is a defect)" % e["s"])
             judge(c, prop, ev, work, "construct")
             c.evaluations = len(ev)
+            if prop == "C15":
+                # the same events recorded under the interpreter's optimisation mode (assert statements removed): every fourth vector
+                ev2 = record_events(items[::4], work, name="opt", env={"PYTHONOPTIMIZE": "1"})
+                judge(c, prop, [e for e in ev2 if e["out"]["cls"] == "ok"], work, "construct-under-python-O")
+                c.evaluations += len(ev2)
             if prop == "C07":
                 pools = []
                 for _ in range(40 if not big else 600):
